@@ -289,8 +289,26 @@ def b2_inverse_data(ctx) -> None:
     elif ok:
         ctx.violation("B2", f, "_perm_inv must return the list it fills", construct=f"{BIJ}._perm_inv return")
     else:
-        rc = [r for r in rets if isinstance(r.value, ast.ListComp)]
-        raise AnalysisError("B2: _perm_inv is written in a way the analysis does not know") if not rc else None
+        # closed forms
+        v = D.expanded(f, rets[0].value) if len(rets) == 1 else None
+        t = norm(v) if v is not None else ""
+        n_ = f"len({p})"
+        good = {f"[{p}.index(_i) for _i in range({n_})]", f"sorted(range({n_}), key={p}.__getitem__)", f"sorted(range({n_}), key=lambda _i: {p}[_i])"}
+        same = {f"sorted(range({n_}), key={p}.index)", f"[{p}[_i] for _i in range({n_})]", f"list({p})", f"{p}[:]", f"{p}.copy()", p}
+        # compare modulo the name of the bound variable
+        import re as _re
+        tt = t
+        mvar = _re.search(r"for (\w+) in range|lambda (\w+):", t)
+        if mvar:
+            nm = mvar.group(1) or mvar.group(2)
+            tt = _re.sub(rf"\b{nm}\b", "_i", t)
+        if tt in good:
+            ctx.ok("B2", f"_perm_inv returns the inverse permutation in closed form (`{t}`)")
+        elif tt in same:
+            ctx.violation("B2", rets[0], f"_perm_inv returns `{t}`, which is the permutation itself (position j holds perm[j]), not its inverse: right only for involutions; a "
+                          "matching that permutes three children cyclically is transported back to the wrong children")
+        else:
+            raise AnalysisError("B2: _perm_inv is written in a way the analysis does not know")
     init = P.need_method(BIJ, "__init__", own=True)
     ctx.analysed(init)
     f = init.node
@@ -930,3 +948,49 @@ def b13_leaf_on_codomain_side(ctx) -> None:
         ctx.violation("B13", blk, f"every domain-only equivalence step of map_rec comes after `{norm(blk)[:70]}`, which fails when `{r2}` is a leaf (a verification rule is not a "
                       "Rule): a class that is only equivalent to an atom, matched with a plain atom of the other specification, cannot be mapped (AssertionError), although "
                       "the isomorphism test accepts the pair")
+
+
+# ------------------------------------------------------------------ B14 bookkeeping stacks are balanced
+STACKS = (
+    # (class, function holding the code, attribute, acquire method, release method)
+    ("EqPathParallelSpecFinder", "_search_matching_info", "_path", "append", "pop"),
+    ("EqPathParallelSpecFinder", "_search_matching_info", "_path_ancestors", "add", "remove"),
+    ("EqPathParallelSpecFinder", "_validate_atoms_for_existing_entries", "_path", "append", "pop"),
+    ("ParallelSpecFinder", "_find", "_ancestors", "add", "remove"),
+    ("Isomorphism", "_are_isomorphic", "_ancestors", "update", "difference_update"),
+)
+
+
+def b14_stacks_balanced(ctx, only_classes: Optional[Tuple[str, ...]] = None) -> None:
+    """The matchers keep the current path / the pairs being compared in instance attributes
+    that recursive calls read.  Whatever is entered before a recursive call is taken back on
+    every way out of that step -- success, failure (break / continue) and the end of the
+    iteration alike; a step that leaves its entry behind makes every later comparison look at a
+    path that is not the current one."""
+    P = ctx.P
+    n = 0
+    for cname, mname, attr, acq, rel in STACKS:
+        if only_classes is not None and cname not in only_classes:
+            continue
+        m = P.need_method(cname, mname, own=True)
+        ctx.analysed(m)
+        # the code may sit in a nested helper (_rec)
+        scopes = [m.node] + [x for x in ast.walk(m.node) if isinstance(x, ast.FunctionDef) and x is not m.node]
+        for f in scopes:
+            for c in walk_local(f):
+                if not (isinstance(c, ast.Call) and isinstance(c.func, ast.Attribute) and c.func.attr == acq and is_self_attr(c.func.value, attr)):
+                    continue
+                n += 1
+
+                def is_release(x, attr=attr, rel=rel):
+                    return isinstance(x, ast.Call) and isinstance(x.func, ast.Attribute) and x.func.attr == rel and is_self_attr(x.func.value, attr)
+
+                paths = C.release_paths(f, c, is_release)
+                bad = [(k, kind, where) for k, kind, where in paths if kind != "raise" and k != 1]
+                if not bad:
+                    ctx.ok("B14", f"{cname}.{mname}: self.{attr}.{acq}(...) is taken back exactly once on each of the {len(paths)} ways out of the step")
+                for k, kind, where in bad[:2]:
+                    ctx.violation("B14", where if where is not None else c, f"{cname}.{mname}: after `{norm(c)[:60]}` the step can end by `{kind}` with self.{attr}.{rel}() executed "
+                                  f"{k} time(s): the entry {'stays behind' if k == 0 else 'is taken back twice'} and later steps compare against a path that is not theirs")
+    if n < (5 if only_classes is None else 1):
+        ctx.floor("B14", 99)
